@@ -2217,6 +2217,10 @@ func (t *Table) SetTableBorders(config *TableBorderConfig) error {
 
 // SetTableShading 设置表格背景
 func (t *Table) SetTableShading(config *ShadingConfig) error {
+	if config == nil {
+		return fmt.Errorf("表格背景配置不能为空")
+	}
+
 	if t.Properties == nil {
 		t.Properties = &TableProperties{}
 	}
